@@ -47,7 +47,7 @@ def enumerate_cases(tier, seed):
     for s in SHAPES:
         for k in ("Loc", "Scale", "Exp", "SoftPlus", "Tanh", "Flip", "Identity"):
             add(k, shape=list(s))
-        for mv in (0.5, 1, 3):
+        for mv in (0.5, 1, 3) + ((6, 10) if s in ((), (2,)) else ()):
             add("LeakyTanh", shape=list(s), max_val=mv)
         for cs in [(), (2,), (2, 3)]:
             add("AddCond", shape=list(s), cond=list(cs))
@@ -67,7 +67,14 @@ def enumerate_cases(tier, seed):
         for slope in (None, 0.1, 1.0):
             for cond in (None, 2):
                 add("Planar", dim=d, slope=slope, cond=cond)
-    return cases
+    # float32 pass (the library's default dtype) for the closed-form leaves: constants computed at construction and the
+    # formulas themselves must be accurate to a few float32 ulps against the float64 reference
+    f32 = []
+    for c in cases:
+        if c["kind"] in ("Affine", "Loc", "Scale", "Exp", "SoftPlus", "Tanh", "LeakyTanh", "TriAffine", "Flip", "AddCond") and \
+                (c["kind"] in ("Affine", "TriAffine") or tuple(c.get("shape", ())) in ((), (2,), (2, 3))):
+            f32.append({**c, "id": c["id"] + "|f32", "x64": False})
+    return cases + f32
 
 
 def _pat(n, salt):
@@ -114,14 +121,22 @@ def run_case(case):
         if seen[sig] <= 1:
             viols.append({"sig": sig, "msg": msg, "detail": {k: v for k, v in case.items() if k not in ("id",)}})
 
+    f32 = not case.get("x64", True)
+
     def compare(b, X, ref, what, cond=None, rt=RT):
         nonlocal tr, nt, sample, max_ratio
         f = (lambda x: b.transform(x, cond))
-        Y = np.asarray(jax.vmap(f)(jnp.asarray(X)), float)
+        if f32:
+            # inputs are rounded to float32 first; the reference is evaluated in float64 at those rounded inputs by the
+            # caller's formulas being smooth: allow 1e-5 relative (tens of float32 ulps, conditioning of exp/tanh tails)
+            rt = max(rt, 2e-5)
+            X = np.asarray(X, np.float32).astype(np.float64)
+            cond = None if cond is None else jnp.asarray(cond, jnp.float32)
+        Y = np.asarray(jax.vmap(f)(jnp.asarray(X, jnp.float32 if f32 else jnp.float64)), float)
         ref = np.asarray(ref, float)
         tr += X.shape[0]
         N = X.shape[0]
-        fin = np.isfinite(ref.reshape(N, -1)).all(1) & (np.abs(ref.reshape(N, -1)).max(1, initial=0) < 1e300)
+        fin = np.isfinite(ref.reshape(N, -1)).all(1) & (np.abs(ref.reshape(N, -1)).max(1, initial=0) < (1e37 if f32 else 1e300))
         nt += int((fin & (np.abs(ref - X).reshape(N, -1).max(1, initial=0) > 1e-9)).sum())
         digest.update(np.ascontiguousarray(np.nan_to_num(Y)).tobytes())
         with np.errstate(invalid="ignore", over="ignore"):
